@@ -98,8 +98,8 @@ pub fn run(args: &Args) {
             let mut res = Results::create(args.res.as_deref().unwrap_or(""));
             // (a) every raw value of both word sizes x a fixed set of scale/offset pairs
             let pairs: Vec<(f32, f32)> = vec![(2.0, 66.0), (2.0, 129.0), (16.0, 128.0), (2.8361, 2.0), (300.0, -60.5), (1.0, 0.0), (0.0, 0.0), (-0.0, 5.0), (0.0, 66.0), (-2.0, 10.0),
-                                              (f32::MIN_POSITIVE / 4.0, 0.0), (3.0e38, -3.0e38), (0.1, 0.3), (100.0, 32768.0), (7.0, 1.0e-3)];
-            let use_pairs = if args.thorough { pairs.len() } else { 9 };
+                                              (f32::MIN_POSITIVE / 4.0, 0.0), (1.0e-8, 0.5), (-9.0e-8, 2.0), (3.0e38, -3.0e38), (0.1, 0.3), (100.0, 32768.0), (7.0, 1.0e-3)];
+            let use_pairs = pairs.len();
             for (scale, offset) in pairs.iter().take(use_pairs) {
                 for (w, first, n) in [(8u8, 0u32, 256usize), (16, 0, 32768), (16, 32768, 32768)] {
                     let p = if w == 16 { "PHI" } else { "REF" };
